@@ -33,7 +33,7 @@ func genWCase(t *rapid.T, maxLen int, clock bool, faults ...bool) WCase {
 		op := WOp{K: rapid.SampledFrom(kinds).Draw(t, "kind"), Key: rapid.SampledFrom([]int{0, 0, 0, 1}).Draw(t, "key")}
 		switch op.K {
 		case "start":
-			op.Ver = rapid.SampledFrom([]int{0, 0, 0, 0, 0, 0, 1, 2, 4, 5, 6, 7, 8, 9, 10}).Draw(t, "ver")
+			op.Ver = rapid.SampledFrom([]int{0, 0, 0, 0, 0, 0, 1, 2, 3, 3, 4, 5, 6, 7, 8, 9, 10}).Draw(t, "ver")
 			op.Pre = rapid.IntRange(0, 9).Draw(t, "pre") == 0
 			op.Gate = rapid.IntRange(0, 3).Draw(t, "gate") == 0
 		case "cancel", "ungate":
@@ -117,8 +117,34 @@ func RunC07Redis(c WCase) (info WInfo, v *vstat.Violation, infra error) {
 	return
 }
 
+// versionScripts: every kind of version argument against a live key (the waiter must return nil at once unless the
+// argument is the current version), followed by a write.
+func versionScripts() []WCase {
+	var out []WCase
+	for ver := 0; ver <= 10; ver++ {
+		out = append(out, WCase{Ops: []WOp{{K: "put"}, {K: "start", Ver: ver}, {K: "put"}}},
+			WCase{Ops: []WOp{{K: "create"}, {K: "put"}, {K: "start", Ver: ver}, {K: "start", Ver: (ver + 3) % 11}, {K: "delete"}}})
+	}
+	return out
+}
+
 func TestC07RedisRapid(t *testing.T) {
 	st := vstat.For("C07")
+	if shard, _ := vstat.Shard(); shard == 0 {
+		scripts := versionScripts()
+		viols := make([]*vstat.Violation, len(scripts))
+		infos := make([]WInfo, len(scripts))
+		var wg sync.WaitGroup
+		for i := range scripts {
+			wg.Add(1)
+			go func(i int) { defer wg.Done(); infos[i], viols[i], _ = RunC07Redis(scripts[i]) }(i)
+		}
+		wg.Wait()
+		for i := range scripts {
+			st.Report(t, "TestC07RedisRapid", scripts[i], viols[i])
+			recordC07(scripts[i], infos[i], "redis")
+		}
+	}
 	rapid.Check(t, func(rt *rapid.T) {
 		n := rapid.IntRange(1, 8).Draw(rt, "batch")
 		batch := make([]WCase, n)
